@@ -100,25 +100,23 @@ class Table:
             final=d.is_final, decl=d)
 
     def add_type(self, t):
-        """learn a class from a live type object (in-run monitors: the class may not be in
-        any program yet)"""
+        """learn a class from a live type object (built-in constructors that no factory
+        method hands out, e.g. Kotlin's specialised arrays; classes of in-run monitors)"""
         from src.ir import types as tp
+        s = tsnap(t)
+        if s is None or s[0] not in ('P', 'TC', 'C') or s[1] in self.classes:
+            return
         if isinstance(t, tp.ParameterizedType):
             tc = t.t_constructor
-            if tc.name not in self.classes:
-                self.classes[tc.name] = CInfo(
-                    tc.name, [(p.name, vval(p.variance), tsnap(p.bound))
-                              for p in tc.type_parameters],
-                    [tsnap(x) for x in tc.supertypes])
+            self.classes[s[1]] = CInfo(
+                s[1], [(p.name, vval(p.variance), tsnap(p.bound)) for p in tc.type_parameters],
+                [tsnap(x) for x in tc.supertypes], builtin=type(tc).__name__ != 'TypeConstructor')
         elif isinstance(t, tp.TypeConstructor):
-            if t.name not in self.classes:
-                self.classes[t.name] = CInfo(
-                    t.name, [(p.name, vval(p.variance), tsnap(p.bound))
-                             for p in t.type_parameters],
-                    [tsnap(x) for x in t.supertypes])
+            self.classes[s[1]] = CInfo(
+                s[1], [(p.name, vval(p.variance), tsnap(p.bound)) for p in t.type_parameters],
+                [tsnap(x) for x in t.supertypes], builtin=type(t).__name__ != 'TypeConstructor')
         elif isinstance(t, tp.SimpleClassifier) and not isinstance(t, tp.Builtin):
-            if t.name not in self.classes:
-                self.classes[t.name] = CInfo(t.name, [], [tsnap(x) for x in t.supertypes])
+            self.classes[s[1]] = CInfo(s[1], [], [tsnap(x) for x in t.supertypes])
 
     def is_top(self, s):
         return s is not None and s[0] == 'B' and s[1] == self.topname
